@@ -195,6 +195,169 @@ PLAN = {
         thorough=[L("dbg", 2, 80000, 16), L("rel", 2, 80000, 16), L("udp", 2, 30000, 8), L("udprel", 2, 30000, 8),
                   L("asan", 0, 25000, 8), L("asanrel", 0, 25000, 8), L("memcheck", 0, 6000, 8), L("miri", 0, 500, 16, 3600)],
     ),
+    "C05": dict(
+        level="exploration", design="DESIGN.md#C05",
+        rule=("finite and enumerated completely: all 65536 option numbers, all 65536 (+6) content-format ids, all 256 code bytes, "
+              "all 256 first header bytes, 4x4x16x6 header setter orders, observe actions 0..2000, every named variant by name; "
+              "compared with registry tables transcribed by hand from the RFCs / IANA. distinct_nontrivial = distinct named "
+              "registry rows exercised (options, content formats, codes) + distinct first bytes unpacked"),
+        assumptions=["the registry tables in harness/src/registry.rs were transcribed by hand from RFC 7252/7641/7959/7967/8132/8516/8613/8768 and the IANA CoRE Parameters registry"],
+        quick=[L("dbg", 1, 1, 1), L("rel", 1, 1, 1), L("nostd", 1, 1, 1)],
+        thorough=[L("dbg", 2, 1, 1), L("rel", 2, 1, 1), L("nostd", 2, 1, 1), L("udp", 2, 1, 1), L("miri", 0, 1, 1, 3600)],
+    ),
+    "C06": dict(
+        level="exploration", design="DESIGN.md#C06",
+        rule=("exhaustive u8 and u16 values at every width, all byte strings of length <=2 (quick) / <=3 (thorough) decoded at every "
+              "width, every 2^k / 256^k neighbour for 32/64 bit, random values and random byte strings of 0..10 bytes with "
+              "leading zeros, random Unicode strings and a catalogue of invalid UTF-8; typed accessors compared element by "
+              "element with the raw lists. Oracle: arithmetic (minimal big-endian). distinct_nontrivial = distinct values / "
+              "(length, leading-zero) classes / strings"),
+        quick=[L("dbg", 1, 20000, 8), L("rel", 1, 20000, 8), L("nostd", 1, 5000, 2), L("miri", 0, 60, 4, 1500)],
+        thorough=[L("dbg", 2, 400000, 16), L("rel", 2, 400000, 16), L("nostd", 2, 100000, 4), L("miri", 0, 400, 8, 3600)],
+    ),
+    "C07": dict(
+        level="exploration", design="DESIGN.md#C07",
+        rule=("product 4 types x 4 versions x token length 0-8 x message ids (every 61st + boundary ids quick; all 65536 thorough) with "
+              "random code/options/payload, through CoapResponse::new, CoapRequest::from_packet and via the wire; every "
+              "HandlingError constructor x every named status x response present/absent x pre-set content format. "
+              "distinct_nontrivial = distinct (type, version, token length, mid high byte) + distinct error shapes"),
+        quick=[L("dbg", 1, 1, 16), L("rel", 1, 1, 16), L("miri", 0, 1, 2, 1500)],
+        thorough=[L("dbg", 2, 1, 16, 3600), L("rel", 2, 1, 16, 3600), L("miri", 0, 1, 4, 3600)],
+    ),
+    "C08": dict(
+        level="exploration", design="DESIGN.md#C08",
+        rule=("Block2 downloads driven through encoded datagrams by a client that fetches blocks in order: every body length "
+              "0..3*size+1 for block sizes 16/32/64 x 4 client strategies, plus random bodies to 20000 bytes, budgets "
+              "overhead+28..1280, strategies {no Block2, early negotiation, size reduction mid-transfer}, several reply option "
+              "sets. Oracle: the body the application produced. distinct_nontrivial = distinct (server block size, length mod "
+              "size, block count bucket, strategy, option-set size)"),
+        quick=[L("dbg", 1, 300, 16), L("rel", 1, 300, 16), L("miri", 0, 3, 4, 1500)],
+        thorough=[L("dbg", 2, 12000, 16, 3600), L("rel", 2, 12000, 16, 3600), L("asan", 0, 500, 8), L("miri", 0, 15, 8, 3600)],
+    ),
+    "C09": dict(
+        level="exploration", design="DESIGN.md#C09",
+        rule=("Block1 uploads through encoded datagrams: body lengths within +-2 of 0..4 block multiples for every SZX 0..6 x "
+              "{no / longer / shorter / other-size abandoned earlier upload}, random bodies to 5000 bytes, each non-final block "
+              "delivered 1-3 times, budgets that admit the client's size; plus un-negotiated large requests around the budget. "
+              "Oracle: the body the client sent. distinct_nontrivial = distinct (block size, length mod size, block count bucket, "
+              "abandoned blocks, abandoned size, duplicates?)"),
+        assumptions=["a retransmitted FINAL block is message-layer deduplication's job and is not asserted as exactly-once (DESIGN.md C09)"],
+        quick=[L("dbg", 1, 400, 16), L("rel", 1, 400, 16), L("miri", 0, 3, 4, 1500)],
+        thorough=[L("dbg", 2, 15000, 16, 3600), L("rel", 2, 15000, 16, 3600), L("asan", 0, 500, 8), L("miri", 0, 15, 8, 3600)],
+    ),
+    "C10": dict(
+        level="exploration", design="DESIGN.md#C10",
+        rule=("downloads and uploads with budgets M such that M-overhead-12 lies in a +-3 band around every 2^k (k=4..10), every "
+              "M in overhead+28..overhead+80, and random M to 1280; overhead varied by token length, path length 0-200 and "
+              "extra options; client SZX none/0..7. Every handler-produced reply is measured as encoded bytes against M; "
+              "chosen sizes compared with the client's. distinct_nontrivial = distinct (block size, length class, strategy) "
+              "and (SZX, fits?, budget-overhead bucket)"),
+        assumptions=["token length constant within a transfer; clients never raise the block size; application replies carry no Block2 of their own (property's configuration)"],
+        quick=[L("dbg", 1, 300, 16), L("rel", 1, 300, 16)],
+        thorough=[L("dbg", 2, 15000, 16, 3600), L("rel", 2, 15000, 16, 3600)],
+    ),
+    "C11": dict(
+        level="exploration", design="DESIGN.md#C11",
+        rule=("random request sequences (1-6 requests quick, up to 40 thorough) against one handler: option bloat to 1400 bytes, Block1/"
+              "Block2 numbers {0,1,2,3,100,4095,4096,65535,2^19}, SZX 0..7, malformed block bytes, payloads 0..1200, all four "
+              "message types, budgets {0..64, 1152, <=5000, directed budget-overhead-12 in {-1,0,1,2,3,15,16}}, application "
+              "replies 0..10000 bytes / large options / own Block2; directed far-jump sequences per SZX. Monitors: panic capture "
+              "on both entry points, error renderability, buffered-upload length before/after each call (hook) and body handed "
+              "over. distinct_nontrivial = distinct (budget bucket, block option shapes, overhead>budget, type, outcome)"),
+        quick=[L("dbg", 1, 6000, 16), L("rel", 1, 6000, 16), L("miri", 0, 12, 4, 1500)],
+        thorough=[L("dbg", 2, 150000, 16, 3600), L("rel", 2, 150000, 16, 3600), L("asan", 0, 20000, 8), L("miri", 0, 60, 8, 3600)],
+    ),
+    "C12": dict(
+        level="exploration", design="DESIGN.md#C12",
+        rule=("scripted block-wise transfers (uploads, downloads, upload-then-blockwise-reply) in sets of 2-3 that differ pairwise in "
+              "exactly one of endpoint / method / path (incl. [a,b] vs [a/b], prefixes, empty path); ALL interleavings of whole "
+              "exchanges enumerated ((5,5)=252, (3,3,3)=1680, (4,4,4)=34650; thorough adds (5,5,5)=756756 per set), and of "
+              "half-exchanges (intercept_request | application+intercept_response). Oracle: transcript of the same script run "
+              "alone; unique mid/token per request. distinct_nontrivial = schedules executed (each enumerated once)"),
+        quick=[L("dbg", 1, 1, 16), L("rel", 1, 1, 16)],
+        thorough=[L("dbg", 2, 1, 16, 7200), L("rel", 2, 1, 16, 7200)],
+    ),
+    "C13": dict(
+        level="exploration", design="DESIGN.md#C13",
+        rule=("exhaustive num 0..65535 x more x SZX 0..7 encode/decode; decode of all byte strings of <=2 bytes and every 61st (quick) "
+              "/ all (thorough) 3-byte strings, random 3..6-byte strings; BlockValue::new over num {0..4097, 65535, 65536, max} x "
+              "sizes 0..8200 and 2^k+-1. Oracle: arithmetic. distinct_nontrivial = sampled distinct triples + (szx, num) "
+              "construction classes"),
+        quick=[L("dbg", 1, 2000, 8), L("rel", 1, 2000, 8), L("miri", 0, 50, 2, 1500)],
+        thorough=[L("dbg", 2, 50000, 16), L("rel", 2, 50000, 16), L("miri", 0, 200, 4, 3600)],
+    ),
+    "C14": dict(
+        level="exploration", design="DESIGN.md#C14",
+        rule=("all operation sequences of depth 4 (quick) / 5 (thorough) over 2 endpoints x 2 tokens x 2 paths (+1 never-registered) x 2 "
+              "message ids x {CON,NON} = 32 operations per step x limits {0,1}, compared step by step with a sequential reference "
+              "model of the registry (eviction timing adopted from the implementation: C15 decides it); sampled depth+2 histories; "
+              "random histories of length 200 over 6 endpoints, 5 paths, 4 tokens. distinct_nontrivial = histories enumerated "
+              "(each exactly once) + distinct random histories; states = distinct model states reached"),
+        quick=[L("dbg", 1, 1500, 16), L("rel", 1, 1500, 16)],
+        thorough=[L("dbg", 2, 40000, 16, 7200), L("rel", 2, 40000, 16, 7200)],
+    ),
+    "C15": dict(
+        level="exploration", design="DESIGN.md#C15",
+        rule=("the C14 histories with limits {0,1,2} and the full model (counts, pending ids via hook or replay-and-probe, eviction "
+              "exactly when count > limit, sequence +1 per round on an observed resource); directed long histories (up to 600 "
+              "confirmable rounds) at limits 0,1,10,254,255 with acknowledgements / stale ids / other endpoints / re-registration "
+              "at every phase; notification builder over token 0-8 x sequences across byte-length boundaries x both types. "
+              "distinct_nontrivial = histories enumerated + distinct random/directed histories"),
+        assumptions=["wrap of the 32-bit sequence (2^32 rounds) is not driven"],
+        quick=[L("dbg", 1, 1500, 16), L("rel", 1, 1500, 16)],
+        thorough=[L("dbg", 2, 40000, 16, 7200), L("rel", 2, 40000, 16, 7200)],
+    ),
+    "C16": dict(
+        level="exploration", design="DESIGN.md#C16",
+        rule=("values over {\" \\ , ; < > = space LF CR a 0 e-acute emoji} exhaustively to length 3 (quick) / 4 (thorough) written with "
+              "attr and attr_quoted in a two-link document, plus random documents of 0-4 links x 0-4 attributes (all writer "
+              "methods, hostile targets, newline option on/off); the writer's output is parsed back and compared. "
+              "distinct_nontrivial = distinct values / documents"),
+        quick=[L("dbg", 1, 1500, 8), L("rel", 1, 1500, 8), L("nostd", 1, 500, 2), L("miri", 0, 30, 4, 1500)],
+        thorough=[L("dbg", 2, 60000, 16), L("rel", 2, 60000, 16), L("miri", 0, 200, 8, 3600)],
+    ),
+    "C17": dict(
+        level="exploration", design="DESIGN.md#C17",
+        rule=("all strings of length <=6 (quick) / <=8 (thorough) over {< > ; , \" \\ = space a e-acute}, the same alphabet to length 4/6 "
+              "in attribute-value position, random strings to 60 chars over a wider alphabet with 3- and 4-byte scalars, every "
+              "prefix of generated well-formed documents. Every iterator is drained under a step bound; pointer-range, order, "
+              "silence-after-error and to_cow == to_string are checked. Miri/ASan watch the pointer arithmetic. "
+              "distinct_nontrivial = enumerated strings that yielded at least one link or attribute + distinct random strings"),
+        quick=[L("dbg", 1, 20000, 16), L("rel", 1, 20000, 16), L("asan", 0, 5000, 4), L("miri", 0, 150, 8, 1500)],
+        thorough=[L("dbg", 2, 300000, 16, 3600), L("rel", 2, 300000, 16, 3600), L("asan", 1, 50000, 8), L("miri", 0, 1500, 16, 3600)],
+    ),
+    "C18": dict(
+        level="fault_enumeration", design="DESIGN.md#C18",
+        rule=("for each generated document (>=2 links; all attribute writer methods): fault-free run to learn the N sink calls, then "
+              "EVERY call index k < N x {fail once, fail from k on} x newline on/off; oracle: final finish() is Err, every "
+              "per-link finish() after the fault is Err, no write accepted after call k, sink content is a prefix of the "
+              "fault-free output. distinct_nontrivial = distinct documents (each with its complete fault plan set)"),
+        quick=[L("dbg", 1, 20, 16), L("rel", 1, 20, 16), L("miri", 0, 1, 4, 1500)],
+        thorough=[L("dbg", 2, 1200, 16, 3600), L("rel", 2, 1200, 16, 3600), L("miri", 0, 4, 8, 3600)],
+    ),
+    "C19": dict(
+        level="exploration", design="DESIGN.md#C19",
+        rule=("every named method/status/content format/observe action through setter -> getter -> raw -> wire from fresh state and after "
+              "another value; all 256 code bytes through the getters; paths over {/ a . e-acute} exhaustively to length 5 (quick) / 7 "
+              "(thorough) with four prior states + random paths; raw Observe bytes of length 0..6; random messages through "
+              "both coap-message trait versions (read, write, set_from_message, payload_mut_with_len, truncate, mutate_options). "
+              "distinct_nontrivial = distinct names / paths / raw classes / message signatures"),
+        quick=[L("dbg", 1, 2000, 16), L("rel", 1, 2000, 16), L("nostd", 1, 500, 2), L("miri", 0, 20, 4, 1500)],
+        thorough=[L("dbg", 2, 60000, 16), L("rel", 2, 60000, 16), L("nostd", 2, 20000, 4), L("miri", 0, 100, 8, 3600)],
+    ),
+    "C20": dict(
+        level="exploration", design="DESIGN.md#C20",
+        rule=("histories with time in them under a frozen virtual clock (clock_gettime interposed; time moves only by injected "
+              "delays): retention (download + upload kept alive through 3 rounds of idle-just-under-expiry with 1..2000 "
+              "intervening requests on other keys, expiry 50 ms..1 h), expiry (0-2 refreshing touches, then idle expiry+2ms / "
+              "1.5x / 10x: follow-up must reach the application, upload must restart from an empty buffer), reclamation "
+              "(1..50 abandoned transfers, idle past expiry, ONE unrelated call: counting endpoint must show exactly one cache "
+              "entry, every large buffer allocation gone); plus real-time runs (expiry 20-60 ms, sleep >= 4x) asserting only the "
+              "must-be-expired direction. distinct_nontrivial = distinct (scenario, expiry, load / wait / count)"),
+        assumptions=["virtual time replaces real hours; the interposed clock is self-tested in every shard"],
+        quick=[L("dbg", 1, 20, 16), L("rel", 1, 20, 16)],
+        thorough=[L("dbg", 2, 1300, 16, 3600), L("rel", 2, 1300, 16, 3600)],
+    ),
 }
 
 
